@@ -32,18 +32,18 @@ theorem slot_length (bs off : Nat) (mem : List Byte) (h : off + bs ≤ mem.lengt
   simp; omega
 
 theorem startOf_checked (lo : Bound) :
-    startOf true lo = match lo with
+    startOf lo = match lo with
       | .unbounded => some 0 | .incl s => some s | .excl s => checkedSucc s := by
   cases lo <;> simp [startOf, checkedSucc]
 
 theorem endOf_checked (hi : Bound) (len : Nat) :
-    endOf true len hi = match hi with
+    endOf len hi = match hi with
       | .unbounded => some len | .incl e => checkedSucc e | .excl e => some e := by
   cases hi <;> simp [endOf, checkedSucc]
 
 theorem vecRange_eq (lo hi : Bound) (len : Nat) :
     vecRange lo hi len =
-      match startOf true lo, endOf true len hi with
+      match startOf lo, endOf len hi with
       | some s, some e => if s > e then none else if e > len then none else some (s, e)
       | _, _ => none := by
   rw [startOf_checked, endOf_checked]
@@ -142,10 +142,10 @@ theorem C15_refine (bs off len : Nat) (mem : List Byte) (op : Op) (h : WF bs mem
     simp only [step, vecStep]
     rw [vecRange_eq]
     simp only [abs]
-    cases hs : startOf true lo with
+    cases hs : startOf lo with
     | none => exact refines_same bs off len len mem .panic h1 h2 (fun _ => rfl)
     | some s =>
-      cases he : endOf true len hi with
+      cases he : endOf len hi with
       | none => exact refines_same bs off len len mem .panic h1 h2 (fun _ => rfl)
       | some e =>
         simp only []
@@ -221,10 +221,10 @@ theorem C15_frame (dev : Bool) (bs off len : Nat) (mem : List Byte) (op : Op)
   | kread d => exact frame_write bs off len mem _ h1 (by simp; omega)
   | remove lo hi =>
     simp only [step]
-    cases startOf dev lo with
+    cases startOf lo with
     | none => exact frame_refl _ _ _
     | some s =>
-      cases endOf dev len hi with
+      cases endOf len hi with
       | none => exact frame_refl _ _ _
       | some e =>
         simp only []
@@ -345,65 +345,53 @@ theorem C15_unowned_remove (bs : Nat) (mem : List Byte) (lo hi : Bound) :
   refine ⟨?_, C15_unowned true bs mem _⟩
   simp only [step, vecStep]
   rw [vecRange_eq]
-  cases startOf true lo with
+  cases startOf lo with
   | none => rfl
   | some s =>
-    cases endOf true 0 hi with
+    cases endOf 0 hi with
     | none => rfl
     | some e =>
       simp only []
       by_cases hs : s = 0 <;> by_cases he : e = 0 <;> simp [hs, he] <;> (repeat' split) <;> simp_all <;> omega
 
 
-/-! ### Release profile (`+ 1` wraps, `debug_assert!` compiled out) -/
+/-! ### Release profile (`debug_assert!` compiled out) -/
 
-/-- The arguments for which the two profiles cannot differ: no bound is
-`usize::MAX`, and `set_len` is called within its documented safety contract. -/
-def InContract (bs : Nat) : Op → Prop
-  | .remove lo hi =>
-    (match lo with | .excl s => s + 1 < USIZE | _ => True) ∧
-    (match hi with | .incl e => e + 1 < USIZE | _ => True)
-  | .setLen n => n ≤ bs
-  | _ => True
+/-- The only call on which the profiles can differ: `set_len`, whose documented
+safety contract is `new_len ≤ capacity`. -/
+def InContract (bs : Nat) (op : Op) : Prop := ∀ n, op = .setLen n → n ≤ bs
 
 theorem step_release_eq (bs : Nat) (rb : RB) (mem : List Byte) (op : Op) (h : InContract bs op) :
     step false bs rb mem op = step true bs rb mem op := by
   cases op with
-  | remove lo hi =>
-    obtain ⟨hl, hh⟩ := h
-    have e1 : startOf false lo = startOf true lo := by
-      cases lo <;> simp_all [startOf]
-    have e2 : ∀ len, endOf false len hi = endOf true len hi := by
-      intro len; cases hi <;> simp_all [endOf]
-    cases rb <;> simp only [step, e1, e2]
   | setLen n =>
-    have : ¬ n > bs := by simp only [InContract] at h; omega
+    have : ¬ n > bs := by have := h n rfl; omega
     cases rb <;> simp [step, this]
   | _ => cases rb <;> rfl
 
-/-- Release profile, calls within contract: the same refinement. -/
-theorem C15_release_partial (bs off len : Nat) (mem : List Byte) (op : Op) (h : WF bs mem off len)
+/-- The full statement for the release profile: every safe call with every
+range form (bounds of `usize::MAX` included, since the `fix:` commit 3770672),
+and `set_len` within its contract, equals the call on the vector. -/
+theorem C15_release_full (bs off len : Nat) (mem : List Byte) (op : Op) (h : WF bs mem off len)
     (hc : InContract bs op) :
     Refines bs off len mem (step false bs (.owned off len) mem op) (vecStep (abs bs mem off len) op) := by
   rw [step_release_eq bs _ mem op hc]
   exact C15_refine bs off len mem op h
 
-/-- The full statement for the release profile, for the *safe* calls (everything
-but `set_len`, whose contract excludes `n > capacity`). -/
-def C15_release_full : Prop :=
-  ∀ (bs off len : Nat) (mem : List Byte) (op : Op), WF bs mem off len →
-    (∀ n, op ≠ .setLen n) →
-    Refines bs off len mem (step false bs (.owned off len) mem op) (vecStep (abs bs mem off len) op)
+/-- The defect repaired by the `fix:` commit 3770672: `start_idx + 1` without
+overflow checks wrapped `Excluded(usize::MAX)` to `start = 0`, so
+`remove((Excluded(usize::MAX), Unbounded))` silently emptied the buffer in a
+release build; a vector (and the code now) panics. -/
+def oldReleaseStartOf : Bound → Nat
+  | .unbounded => 0
+  | .incl s => s
+  | .excl s => (s + 1) % USIZE
 
-/-- It fails: without overflow checks `remove((Excluded(usize::MAX), Unbounded))`
-computes `start = 0` and silently empties the buffer; a vector panics
-(`slice::range` uses `checked_add`). -/
-theorem C15_release_full_fails : ¬ C15_release_full := by
-  intro h
-  have := h 4 0 3 [1, 2, 3, 4] (.remove (.excl 18446744073709551615) .unbounded)
-    ⟨by decide, by decide⟩ (by intro n; simp)
-  exact absurd this.1 (by decide)
-
+example : oldReleaseStartOf (.excl 18446744073709551615) = 0 ∧
+    startOf (.excl 18446744073709551615) = none ∧
+    (step false 4 (.owned 0 3) [1, 2, 3, 4] (.remove (.excl 18446744073709551615) .unbounded)).1 = .panic ∧
+    (vecStep ⟨[1, 2, 3, 4], 3⟩ (.remove (.excl 18446744073709551615) .unbounded)).1 = .panic := by
+  decide
 
 /-! ### The reference really is a byte vector: its laws on the contents -/
 
@@ -619,7 +607,7 @@ example : (run true 4 (initBuffer 4 1 3) [9, 9, 9, 9, 1, 2, 3, 4]
     = (.owned 4 4, [9, 9, 9, 9, 1, 5, 6, 4]) ∧ releaseEntry 4 4 = (1, 4) := by decide
 
 example : vecRange (.excl 0) (.incl 1) 3 = some (1, 2) := by decide
-example : InContract 4 (.remove (.excl 0) (.incl 1)) := by simp [InContract, USIZE]
+example : InContract 4 (.setLen 3) := by intro n h; cases h; decide
 
 /-- The defect repaired by the `fix:` commit c5fbcf6: the old test
 `start != 0 && end != 0` accepted `remove(0..5)` on a `ReadBuf` without a
